@@ -614,88 +614,52 @@ Proof.
   destruct (D3 Hise) as (G1 & G2 & G3).
   assert (Hrl3 : (0 <= r_len (rd (state f3)))%Z) by (destruct G1 as (_ & A & _); exact A).
   assert (Howed5 : (owed (state f5) <= Z.of_N (peekSize f5))%Z).
-  { unfold owed. rewrite F5rd, F5pk. unfold owed in G3, Rowed. lia. }
-  set (f6 := if phase (state f5) =? phaseStreamEnd
-             then set_state f5 (set_phase (state f5) phaseFinish) else f5).
-  set (ret := if phase (state f5) =? phaseStreamEnd then Some REOF else @None rres).
-  assert (Hfr : (if phase (state f5) =? phaseStreamEnd
-                 then (set_state f5 (set_phase (state f5) phaseFinish), Some REOF)
-                 else (f5, None)) = (f6, ret)).
-  { unfold f6, ret. destruct (phase (state f5) =? phaseStreamEnd); reflexivity. }
-  assert (He3 : e = ENone \/ e = EOutputOverflow \/ e = EEndInput).
-  { destruct e; cbn in Hise; try discriminate; try tauto. }
-  assert (Hret : ret = None -> phase (state f5) <> phaseStreamEnd).
-  { unfold ret. destruct (phase (state f5) =? phaseStreamEnd) eqn:E; [discriminate|]. intros _; lia. }
-  assert (F6 : rd (state f6) = rd (state f3) /\ rBuf f6 = rBuf f5 /\ peekSize f6 = peekSize f5 /\
-               derr f6 = derr f5 /\ writePos f6 = writePos f3 /\ readPos f6 = wp1 /\
-               haveBits f6 = haveBits f5 /\ eof f6 = eof f5 /\ inputNil (state f6) = false /\
-               inf_inv (state f6) /\ (phase (state f6) <= 5)%N /\
-               (phase (state f6) = phaseFinish \/ phase (state f6) = phase (state f3))).
-  { unfold f6. destruct (phase (state f5) =? phaseStreamEnd) eqn:E.
-    - cbn [state set_state rBuf peekSize derr writePos readPos haveBits eof set_phase rd inputNil phase].
-      split; [exact F5rd|]. do 3 (split; [reflexivity|]). split; [exact F5wp|]. split; [exact F5rp|].
-      do 2 (split; [reflexivity|]). split; [exact F5nil|].
-      split; [apply (inf_inv_finish_phase (state f5)); [apply F5inf; exact G1|apply N.eqb_eq; exact E]|].
-      split; [unfold phaseFinish; lia|left; reflexivity].
-    - split; [exact F5rd|]. do 3 (split; [reflexivity|]). split; [exact F5wp|]. split; [exact F5rp|].
-      do 2 (split; [reflexivity|]). split; [exact F5nil|]. split; [apply F5inf; exact G1|].
-      rewrite F5ph. unfold phase_run in G2. split; [lia|right; reflexivity]. }
-  destruct F6 as (K1 & K2 & K3 & K4 & K5 & K6 & K7 & K8 & K9 & K10 & K11 & K12).
-  assert (Hexp : forall (X : decompressor * option rres),
-     X = (if (r_inlen (rd (state f6)) =? 0) || (phase (state f6) =? phaseFinish)
-          then match step_discard f6 with
-               | None => (f6, Some RStuck)
-               | Some (Some be, f) => (f, Some (rres_of_berror be))
-               | Some (None, f) => (f, ret)
-               end
-          else (f6, ret)) ->
-     snd X <> Some RPanic /\ snd X <> Some RStuck /\ derr (fst X) = derr f /\
-     (snd X = None ->
-        d_inv (fst X) /\ srcT (fst X) <= srcT f /\
-        (writePos (fst X) <= readPos (fst X) -> hungry (fst X) /\ eof f = false))).
-  { intros X HX.
-    destruct ((r_inlen (rd (state f6)) =? 0) || (phase (state f6) =? phaseFinish)) eqn:Ecnd.
-    - destruct (step_discard_ok f6) as (f7 & SD1 & SD2 & SD3 & SD4 & SD5 & SD6 & SD7 & SD8 & SD9 & SD10 & SD11 & SD12 & SD13).
-      { rewrite K2; exact F5buf_inv. } { rewrite K2, F5buf; exact Rberr. } { rewrite K3, K2; exact F5pkb. }
-      { rewrite K1; exact Hrl3. } { unfold owed. rewrite K1, K3. unfold owed in Howed5. rewrite F5rd in Howed5. exact Howed5. }
-      rewrite SD1 in HX. subst X. cbn [fst snd].
-      split; [unfold ret; destruct (phase (state f5) =? phaseStreamEnd); discriminate|].
-      split; [unfold ret; destruct (phase (state f5) =? phaseStreamEnd); discriminate|].
-      split; [congruence|]. intros Hr.
-      split.
-      { unfold d_inv. rewrite SD2.
-        split; [apply inf_inv_set_input; [exact K10|reflexivity]|].
-        split; [exact K11|]. split; [exact SD3|]. split; [exact SD4|].
-        split; [rewrite SD5, K2, F5buf; exact R16|]. split; [rewrite SD5, K2, F5buf; exact Rmax|].
-        split; [intros _; exact SD7|]. intros Hc; discriminate. }
-      split; [unfold srcT; rewrite SD6, K2, F5buf; apply N.le_refl|].
-      intros Hq. rewrite SD9, SD10, K5, K6 in Hq.
-      (* quiet: e must be EEndInput without eof *)
-      assert (HeE : e = EEndInput).
-      { destruct He3 as [->|[->| ->]]; [| |reflexivity].
-        - exfalso. apply (Hret Hr). rewrite F5ph. apply D6. reflexivity.
-        - exfalso. specialize (D5 eq_refl). lia. }
-      subst e. cbn [isError ierr_eqb orb andb] in Eerr.
-      split; [|rewrite <- F5eof; exact Eerr].
-      unfold hungry. rewrite SD2. cbn [inputNil set_inputNil state].
-      split; [reflexivity|]. split; [rewrite SD12, K7, F5hb; reflexivity|].
-      cbn [rd set_inputNil set_rd r_len br_set_in]. apply SD8. rewrite K1. apply D7. reflexivity.
-    - subst X. cbn [fst snd].
-      split; [unfold ret; destruct (phase (state f5) =? phaseStreamEnd); discriminate|].
-      split; [unfold ret; destruct (phase (state f5) =? phaseStreamEnd); discriminate|].
-      split; [congruence|]. intros Hr.
-      split.
-      { unfold d_inv. split; [exact K10|]. split; [exact K11|]. rewrite K2.
-        split; [exact F5buf_inv|]. split; [rewrite F5buf; exact Rberr|].
-        split; [rewrite F5buf; exact R16|]. split; [rewrite F5buf; exact Rmax|].
-        split; [intros Hc; congruence|]. intros _. split; [rewrite K3; exact F5pkb|].
-        unfold owed. rewrite K1, K3. unfold owed in Howed5. rewrite F5rd in Howed5. exact Howed5. }
-      split; [unfold srcT; rewrite K2, F5buf; apply N.le_refl|].
-      intros Hq. rewrite K5, K6 in Hq. exfalso.
-      destruct He3 as [->|[->| ->]].
-      + apply (Hret Hr). rewrite F5ph. apply D6. reflexivity.
-      + specialize (D5 eq_refl). lia.
-      + specialize (D7 eq_refl). rewrite K1 in Ecnd. lia. }
-  rewrite Hfr. cbv beta iota zeta.
-  destruct e; try (exfalso; tauto); try (cbn in Hise; discriminate); apply Hexp; reflexivity.
-Qed.
+  { unfold owed. rewrite F5rd, F5pk. unfold owed in G3, Rowed. clear - G3 Rowed; lia. }
+  clear Hm D3 G1 Rinf F5inf Rbuf F5buf_inv ED.
+  assert (T_HLF : True). { time "HLF" (clear HLF; assert (0 <= 1)%Z by lia). exact I. }
+  assert (T_HRM : True). { time "HRM" (clear HRM; assert (0 <= 1)%Z by lia). exact I. }
+  assert (T_Rrun : True). { time "Rrun" (clear Rrun; assert (0 <= 1)%Z by lia). exact I. }
+  assert (T_Rberr : True). { time "Rberr" (clear Rberr; assert (0 <= 1)%Z by lia). exact I. }
+  assert (T_R16 : True). { time "R16" (clear R16; assert (0 <= 1)%Z by lia). exact I. }
+  assert (T_Rmax : True). { time "Rmax" (clear Rmax; assert (0 <= 1)%Z by lia). exact I. }
+  assert (T_Rnil : True). { time "Rnil" (clear Rnil; assert (0 <= 1)%Z by lia). exact I. }
+  assert (T_Rpk : True). { time "Rpk" (clear Rpk; assert (0 <= 1)%Z by lia). exact I. }
+  assert (T_Hwp1 : True). { time "Hwp1" (clear Hwp1; assert (0 <= 1)%Z by lia). exact I. }
+  assert (T_B1 : True). { time "B1" (clear B1; assert (0 <= 1)%Z by lia). exact I. }
+  assert (T_B2 : True). { time "B2" (clear B2; assert (0 <= 1)%Z by lia). exact I. }
+  assert (T_B3 : True). { time "B3" (clear B3; assert (0 <= 1)%Z by lia). exact I. }
+  assert (T_L : True). { time "L" (clear L; assert (0 <= 1)%Z by lia). exact I. }
+  assert (T_Hhb : True). { time "Hhb" (clear Hhb; assert (0 <= 1)%Z by lia). exact I. }
+  assert (T_D1 : True). { time "D1" (clear D1; assert (0 <= 1)%Z by lia). exact I. }
+  assert (T_D2 : True). { time "D2" (clear D2; assert (0 <= 1)%Z by lia). exact I. }
+  assert (T_D4 : True). { time "D4" (clear D4; assert (0 <= 1)%Z by lia). exact I. }
+  assert (T_D5 : True). { time "D5" (clear D5; assert (0 <= 1)%Z by lia). exact I. }
+  assert (T_D6 : True). { time "D6" (clear D6; assert (0 <= 1)%Z by lia). exact I. }
+  assert (T_D7 : True). { time "D7" (clear D7; assert (0 <= 1)%Z by lia). exact I. }
+  assert (T_D8 : True). { time "D8" (clear D8; assert (0 <= 1)%Z by lia). exact I. }
+  assert (T_D9 : True). { time "D9" (clear D9; assert (0 <= 1)%Z by lia). exact I. }
+  assert (T_D10 : True). { time "D10" (clear D10; assert (0 <= 1)%Z by lia). exact I. }
+  assert (T_D11 : True). { time "D11" (clear D11; assert (0 <= 1)%Z by lia). exact I. }
+  assert (T_D12 : True). { time "D12" (clear D12; assert (0 <= 1)%Z by lia). exact I. }
+  assert (T_D13 : True). { time "D13" (clear D13; assert (0 <= 1)%Z by lia). exact I. }
+  assert (T_D14 : True). { time "D14" (clear D14; assert (0 <= 1)%Z by lia). exact I. }
+  assert (T_D15 : True). { time "D15" (clear D15; assert (0 <= 1)%Z by lia). exact I. }
+  assert (T_D16 : True). { time "D16" (clear D16; assert (0 <= 1)%Z by lia). exact I. }
+  assert (T_D17 : True). { time "D17" (clear D17; assert (0 <= 1)%Z by lia). exact I. }
+  assert (T_F5st : True). { time "F5st" (clear F5st; assert (0 <= 1)%Z by lia). exact I. }
+  assert (T_F5rd : True). { time "F5rd" (clear F5rd; assert (0 <= 1)%Z by lia). exact I. }
+  assert (T_F5buf : True). { time "F5buf" (clear F5buf; assert (0 <= 1)%Z by lia). exact I. }
+  assert (T_F5pk : True). { time "F5pk" (clear F5pk; assert (0 <= 1)%Z by lia). exact I. }
+  assert (T_F5derr : True). { time "F5derr" (clear F5derr; assert (0 <= 1)%Z by lia). exact I. }
+  assert (T_F5eof : True). { time "F5eof" (clear F5eof; assert (0 <= 1)%Z by lia). exact I. }
+  assert (T_F5wp : True). { time "F5wp" (clear F5wp; assert (0 <= 1)%Z by lia). exact I. }
+  assert (T_F5rp : True). { time "F5rp" (clear F5rp; assert (0 <= 1)%Z by lia). exact I. }
+  assert (T_F5hb : True). { time "F5hb" (clear F5hb; assert (0 <= 1)%Z by lia). exact I. }
+  assert (T_F5nil : True). { time "F5nil" (clear F5nil; assert (0 <= 1)%Z by lia). exact I. }
+  assert (T_F5ph : True). { time "F5ph" (clear F5ph; assert (0 <= 1)%Z by lia). exact I. }
+  assert (T_F5pkb : True). { time "F5pkb" (clear F5pkb; assert (0 <= 1)%Z by lia). exact I. }
+  assert (T_Eerr : True). { time "Eerr" (clear Eerr; assert (0 <= 1)%Z by lia). exact I. }
+  assert (T_Hise : True). { time "Hise" (clear Hise; assert (0 <= 1)%Z by lia). exact I. }
+  assert (T_G2 : True). { time "G2" (clear G2; assert (0 <= 1)%Z by lia). exact I. }
+  assert (T_Hrl3 : True). { time "Hrl3" (clear Hrl3; assert (0 <= 1)%Z by lia). exact I. }
+Abort.
